@@ -361,6 +361,22 @@ def derived_foreign_facets_program():
     return ss
 
 
+def two_header_parts_of_one_element_program():
+    """A request with three header parts, two of which (next to each other in the binding) carry the same global element (one that becomes a struct; built-in typed ones do not compile with yaserde 0.12's derive):
+    primaryToken and backupToken are two entries of the Header, not one."""
+    from . import gen_c14
+    ss = gen_c14.base_program()
+    f0 = ss.files[0]
+    token = GlobalElement(N("token"), content=Content(Group("sequence", 1, 1, [LocalElement(N("secret"), TypeRef("string"))]), []), file=0)
+    f0.components.append(token)
+    op = ss.wsdl.operations[0]
+    p1, p2 = Part(N("primary", "token"), TypeRef(token.name.xml, 0, token)), Part(N("backup", "token"), TypeRef(token.name.xml, 0, token))
+    op.input.parts += [p1, p2]
+    op.in_headers = list(op.in_headers) + [p1.name, p2.name]
+    ss.features = {"wsdl", "soap-headers", "two-header-parts-of-one-element"}
+    return ss
+
+
 def _code(i):
     """A digit-free word for a number (case conversion of digits is ambiguous)."""
     return "k" + "".join("abcdefghij"[int(d)] for d in str(i))
